@@ -455,6 +455,73 @@ register(Obligation(name="C08.scf.closed_shell_polarised_path", prop=PROP, engin
                     doc="BOUNDED: closed-shell orbitals through the spin-polarised path: same energy contributions, half the gradient per channel"))
 
 
+class ClosedShellSteepestDescent:
+    """BOUNDED native: a closed-shell state stays closed-shell: steepest-descent steps (the minimiser whose update is a plain function of the gradients of
+    the CURRENT point) from the same start in the spin-polarised path keep the orbitals of the two channels identical; started from exchanged channels of an open-shell guess the run gives the same energies and exchanged orbitals."""
+
+    def case(self, seed):
+        import eminus
+        from eminus import SCF, Atoms
+        from eminus.dft import guess_random
+
+        eminus.config.backend = "numpy"
+        eminus.config.verbose = "critical"
+        cell = [[6.0, 0.3, 0.1], [0.2, 6.5, 0.4], [0.5, 0.1, 7.0]]
+        diffs = {}
+        W1 = None
+        hist = {}
+        for unres in (False, True):
+            at = Atoms(["Si", "C"], [[0.2, 0.1, 0.3], [0.4, 0.2, 3.1]], ecut=4, a=cell, unrestricted=unres)
+            at.s = [11, 11, 13]
+            at.set_k([[0.0, 0.0, 0.0], [0.2, 0.1, 0.05]], [0.4, 0.6])
+            scf = SCF(at, xc="pbe", opt={"sd": 4}, etol=1e-14, verbose="critical")  # (the spin-paired run only provides the start)
+            if W1 is None:
+                W1 = [np.asarray(w) for w in guess_random(scf, seed=seed + 5)]
+                scf.W = [w.copy() for w in W1]
+            else:
+                scf.W = [np.concatenate([w, w], axis=0) for w in W1]
+            scf.run()
+            hist[unres] = ([float(e) for e in scf._opt_log["sd"].get("Elist", [])] or [float(scf.energies.Etot)], [np.asarray(w) for w in scf.W])
+        # (the step of a channel is the step length times ITS gradient, which is half the spin-paired one: the two trajectories differ by that scaling and are
+        # not compared; what the property states is that the two channels stay identical)
+        diffs["channels of the polarised run"] = float(max(np.abs(w[0] - w[1]).max() for w in hist[True][1]))
+        # exchange of the channels of an open-shell start
+        res = []
+        Wo = None
+        for swap in (False, True):
+            at = Atoms("Li", [[0.1, 0.2, 0.3]], ecut=4, a=cell, unrestricted=True)
+            scf = SCF(at, xc="pbe", opt={"sd": 4}, etol=1e-14, verbose="critical")
+            a = scf.atoms
+            f = np.asarray(a.occ.f).copy()
+            if Wo is None:
+                Wo = [np.asarray(w) for w in guess_random(scf, seed=seed + 9)]
+            if swap:
+                a.occ._f = f[:, ::-1].copy()
+            scf.W = [w[::-1].copy() for w in Wo] if swap else [w.copy() for w in Wo]
+            E = float(scf.run())
+            res.append((E, [np.asarray(w) for w in scf.W]))
+        diffs["energy after exchanging the channels of an open-shell start"] = abs(res[0][0] - res[1][0])
+        diffs["orbitals after exchanging the channels"] = float(max(np.abs(x - y[::-1]).max() for x, y in zip(res[0][1], res[1][1])))
+        return max(diffs.values()), dict(diffs=diffs)
+
+    def __call__(self, ob, tier, seed):
+        from pycv.framework import BOUNDED_OK
+
+        w, info = self.case(seed)
+        if not w <= 1e-10:
+            return Result(REFUTED, backend="native", witness=dict(seed=seed), replayed=True, replay_info=info, detail=f"steepest-descent steps do not keep a closed-shell state closed-shell / do not commute with the exchange of the channels: {info['diffs']}")
+        return Result(BOUNDED_OK, backend="native", detail=f"bounded: four steepest-descent steps (SiC, two weighted k-points, PBE; Li open shell): channels identical, exchange commutes, to {w:.1e}")
+
+    def replay(self, wit):
+        w, info = self.case(wit["seed"])
+        return bool(not w <= 1e-10), info
+
+
+register(Obligation(name="C08.sd.closed_shell_stays_closed_shell", prop=PROP, engine="B", bounded=True, run=ClosedShellSteepestDescent(), budget={"quick": 300, "thorough": 600},
+                    functions=["eminus.minimizer:sd", "eminus.dft:get_grad", "eminus.scf:SCF.run"],
+                    doc="BOUNDED: steepest-descent steps keep the two channels of a closed-shell state identical and commute with the exchange of the channels"))
+
+
 # ------------------------------------------------------------------------------------------------
 # spin-exchange symmetry AT full polarisation: (n, 0) and (0, n) give swapped, finite outputs
 # ------------------------------------------------------------------------------------------------
